@@ -447,3 +447,70 @@ func VH17h_resize_backlog() {
 	verif.Reach("resize-backlog-checked")
 	sock.Close()
 }
+
+// VH17i_independent: two messages arrive from the same peer (for the
+// request/reply and survey patterns through a raw socket with two-word routing
+// headers) and the application receives and holds both. It then overwrites the
+// first one completely -- header and body, which are the application's from the
+// moment RecvMsg returned -- and appends to both. The second message is not
+// affected: received messages share no storage, neither with each other nor
+// with anything the library keeps.
+func VH17i_independent() {
+	protos := []string{"xpair", "xpair1", "xpull", "xsub", "xbus", "xstar", "xrep", "xrespondent", "xreq", "xsurveyor",
+		"pair", "pair1", "pull", "sub", "bus", "star"}
+	proto := protos[verif.Choice("proto", len(protos))]
+	lab := "C17/independent/" + proto
+	sock := vp.New(proto)
+	vt.Install()
+	if proto == "sub" {
+		verif.Assert(sock.SetOption(mangos.OptionSubscribe, []byte{}) == nil, lab+"/subscribe")
+	}
+	side := vt.Listen(sock, "a")
+	p1 := side.Peer("p1")
+	wire := func(tag byte) []byte {
+		switch proto {
+		case "xrep", "xrespondent":
+			return []byte{0, 0, tag, 7, 0x80, 0, tag, 1, tag, 0x5a}
+		case "xreq", "xsurveyor":
+			return []byte{0x80, 0, tag, 2, tag, 0x5a}
+		}
+		return wireFor(proto, tag, 0x5a)
+	}
+	p1.Deliver(wire('A'))
+	p1.Deliver(wire('B'))
+	verif.Quiesce()
+	var ms []*mangos.Message
+	for i := 0; i < 2; i++ {
+		var m *mangos.Message
+		var err error
+		g := verif.Go("recv", func() { m, err = sock.RecvMsg() })
+		verif.Quiesce()
+		verif.Assert(g.Done() && err == nil, lab+"/recv")
+		if !g.Done() || err != nil {
+			return
+		}
+		ms = append(ms, m)
+	}
+	verif.Assert(ms[0] != ms[1], lab+"/one-message-object-delivered-twice")
+	h2 := append([]byte{}, ms[1].Header...)
+	b2 := append([]byte{}, ms[1].Body...)
+	for i := range ms[0].Header {
+		ms[0].Header[i] ^= 0xFF
+	}
+	for i := range ms[0].Body {
+		ms[0].Body[i] ^= 0xFF
+	}
+	ms[0].Header = append(ms[0].Header, 0xEE, 0xEE, 0xEE, 0xEE, 0xEE, 0xEE, 0xEE, 0xEE)
+	ms[0].Body = append(ms[0].Body, 0xDD, 0xDD, 0xDD, 0xDD)
+	verif.Assert(len(ms[1].Header) == len(h2) && verif.BytesEq(ms[1].Header, h2), lab+"/header-of-one-received-message-changed-by-writing-into-another")
+	verif.Assert(len(ms[1].Body) == len(b2) && verif.BytesEq(ms[1].Body, b2), lab+"/body-of-one-received-message-changed-by-writing-into-another")
+	// and a third message arriving now does not touch what the application holds
+	p1.Deliver(wire('C'))
+	verif.Quiesce()
+	verif.Assert(verif.BytesEq(ms[1].Header, h2) && verif.BytesEq(ms[1].Body, b2), lab+"/held-message-changed-by-a-later-arrival")
+	verif.Reach("independent-checked")
+	for _, m := range ms {
+		m.Free()
+	}
+	sock.Close()
+}
